@@ -449,6 +449,17 @@ CaseResult run_md(const RunCtx &ctx, TapeReader &t, unsigned size_hint) {
                 if (b[d] > 0) --b[d], qs.push_back(b);
             }
         }
+        // single-bit twins: a stored point with one bit of one coordinate flipped (every bit position of every dimension)
+        {
+            size_t tstep = std::max<size_t>(1, sorted.size() / 24);
+            for (size_t i = 0; i < sorted.size(); i += tstep)
+                for (size_t d = 0; d < D; ++d)
+                    for (unsigned b = 0; b < coord_bits; ++b) {
+                        Pt4 q = sorted[i].second;
+                        q[d] ^= uint64_t(1) << b;
+                        if (q[d] <= cmax) qs.push_back(q);
+                    }
+        }
         // absent points by code position: below all, between consecutive stored codes, above all
         auto decode_ref = [&](unsigned __int128 c) {
             Pt4 p{0, 0, 0, 0};
